@@ -281,6 +281,7 @@ class Reg(object):
 # C03's subject; each has a single-purpose probe family instead.  Remove an
 # entry when the class has been repaired in the repository.
 NON_T = set(['fft'])
+ALLOW_ALIASED_WRITES = True     # a view of a buffer written back into the same buffer (buf[0:2] = buf[1:3])
 # Classes repaired in the repository (see known_findings.json, "fixed" entries); they are
 # part of T again and the ordinary families generate them: setitem_bcast, dot_matvec,
 # outer, sum_axis0, reshape_noncontig, pow_negint, eigh_vectors.  lu, svd and qr_full were
@@ -823,16 +824,17 @@ class Gen(object):
         def value_for(sh):
             # never a direct view of this buffer: writing a view of a slot back into
             # the buffer is an aliased form no documented idiom uses
+            no_alias = None if (ALLOW_ALIASED_WRITES and rng.random() < 0.5) else buf
             if sh == ():
-                return self.scalar_expr(not_view_of=buf)
-            v = self.pick_reg(lambda q: q.sh == sh and q.root != buf)
+                return self.scalar_expr(not_view_of=no_alias)
+            v = self.pick_reg(lambda q: q.sh == sh and (no_alias is None or q.root != buf))
             if v is None:
                 if self.truth_only and 'setitem_bcast' in NON_T:
                     # build a value of exactly the slot's shape
                     src = self.pick_reg(lambda q: len(q.sh) == 1 and q.mag * 2.0 * q.sh[0] <= MAG_CAP)
                     return self.const_linear(src, sh[0])
                 # broadcast a scalar into the slice
-                return self.scalar_expr(not_view_of=buf)
+                return self.scalar_expr(not_view_of=no_alias)
             return v
 
         n_steps = rng.randint(3, 8)
@@ -843,7 +845,7 @@ class Gen(object):
                 if rng.random() < 0.12:
                     # a plain constant written into the traced buffer (buf[1] = 2.5)
                     cst = const_scalar(rng) if (sh == () or rng.random() < 0.5) else const_array(rng, sh)
-                    live = [q for q in views if self.regs[q].kind == 'v']
+                    live = [i for i, g in enumerate(self.regs) if g.root == buf and i != buf and g.kind == 'v']
                     if live:
                         if self.truth_only or rng.random() < 0.5:
                             for q in live:
@@ -873,7 +875,7 @@ class Gen(object):
                 # means different things for different operand kinds.  In truth programs
                 # such reads are retired; elsewhere they stay (C05/C06 compare like with
                 # like) and the exact model is switched off for the program.
-                live = [r for r in views if self.regs[r].kind == 'v']
+                live = [r for r, q in enumerate(self.regs) if q.root == buf and r != buf and q.kind == 'v']
                 if live:
                     if self.truth_only or rng.random() < 0.5:
                         for r in live:
